@@ -2456,6 +2456,12 @@ bool mmd_engine_has_metadata(mmd_engine * e, size_t * end) {
 		temp->table_stack->size = e->table_stack->size;
 
 
+		// Metadata collected by an earlier request is collected again by the
+		// parse below -- discard it so that entries are not duplicated
+		while (e->metadata_stack->size) {
+			meta_free(stack_pop(e->metadata_stack));
+		}
+
 		// Tokenize the string (up until first empty line)
 		doc = mmd_tokenize_string(e, 0, e->dstr->currentStringLength, true);
 
@@ -2801,6 +2807,12 @@ void mmd_engine_update_metavalue_for_key(mmd_engine * e, const char * key, const
 		// There is no metadata, so prepend before document
 		d_string_append_c(temp, '\n');
 		d_string_prepend(e->dstr, temp->str);
+	}
+
+	// Offsets and values recorded for the old text are stale now --
+	// the next request will collect the metadata again
+	while (e->metadata_stack->size) {
+		meta_free(stack_pop(e->metadata_stack));
 	}
 
 	d_string_free(temp, true);
